@@ -17,7 +17,13 @@ import (
 	"time"
 )
 
-const VerifDir = "/verif"
+// VerifDir is the root of the verification tree (VERIF_ROOT, set by check.sh; default /verif).
+var VerifDir = func() string {
+	if d := os.Getenv("VERIF_ROOT"); d != "" {
+		return d
+	}
+	return "/verif"
+}()
 
 // Tier is "quick" or "thorough".
 type Tier string
@@ -287,7 +293,7 @@ func (r *Run) Finish() int {
 	violations := 0
 	printedKnown := map[string]bool{}
 	var violationLines []string
-	replayDir := filepath.Join(VerifDir, "replays", r.ID)
+	replayDir := filepath.Join(outDir(), "replays", r.ID)
 	for _, sig := range sigs {
 		c := r.cexBySig[sig]
 		matched := false
@@ -354,8 +360,8 @@ func (r *Run) Finish() int {
 		ev.Assumptions = []string{}
 	}
 	b, _ := json.MarshalIndent(ev, "", "  ")
-	os.MkdirAll(filepath.Join(VerifDir, "evidence"), 0o755)
-	if err := os.WriteFile(filepath.Join(VerifDir, "evidence", r.ID+".json"), b, 0o644); err != nil {
+	os.MkdirAll(filepath.Join(outDir(), "evidence"), 0o755)
+	if err := os.WriteFile(filepath.Join(outDir(), "evidence", r.ID+".json"), b, 0o644); err != nil {
 		Fatalf("writing evidence: %v", err)
 	}
 	fmt.Printf("%s %s: states=%d transitions=%d outcomes=%d nontrivial=%d exhaustive=%v violations=%d wall=%.1fs\n",
@@ -364,6 +370,16 @@ func (r *Run) Finish() int {
 		return 1
 	}
 	return 0
+}
+
+// outDir is /verif, or a private directory when the check runs against a scratch copy of the
+// repository (VERIF_OUT, set by check.sh for VERIF_REPO != /repo) so that experiments never
+// overwrite the evidence of /repo.
+func outDir() string {
+	if d := os.Getenv("VERIF_OUT"); d != "" {
+		return d
+	}
+	return VerifDir
 }
 
 func withCount(m map[string]any, n int) map[string]any {
